@@ -164,13 +164,29 @@ func mutations(v []byte, rng interface {
 		}
 		add("bitflip", c)
 	}
+	// the tail rewritten as a strictly increasing ramp whose last bytes exceed the tail's own length: sorted index lists followed by counts
+	// (hint encodings, offset tables) pass every "is it increasing" test and point past the end
+	for _, T := range []int{8, 16, 32, 61, 64, 83, 84, 96, 128} {
+		if T+1 > L || T+9 > 255 {
+			continue
+		}
+		c := append([]byte{}, v...)
+		t := c[L-T:]
+		for i := 0; i < T; i++ {
+			t[i] = byte(i)
+		}
+		for j := 0; j < 8 && j < T; j++ {
+			t[T-8+j] = byte(T + 1 + j)
+		}
+		add("tail-ramp", c)
+	}
 	// a 16-bit length field near its maximum AND enough bytes behind it to satisfy it: 16-bit offset arithmetic (8 + len) wraps
-	for _, off := range capIdx(minInt(L, 48), 24*scale, rng) {
+	for _, off := range []int{0, 2, 4, 6, 8, 10, 12, 16, 20, 24, 32} {
 		if off+2 > L {
 			continue
 		}
-		for _, p := range [][]byte{{0xff, 0xff}, {0xff, 0xf8}, {0xff, 0xfe}} {
-			for _, extra := range []int{0, 1, 9} {
+		for _, p := range [][]byte{{0xff, 0xff}, {0xff, 0xf8}} {
+			for _, extra := range []int{0, 9} {
 				c := append([]byte{}, v[:off+2]...)
 				copy(c[off:], p)
 				rest := make([]byte, 65535+extra)
